@@ -70,6 +70,10 @@ def gen_scenarios(rng, per_combo):
                         v, s = rng.choice([(ver, scale), (ver, scale), ('9', 4), (None, 5), (V0, 1)])
                         ops.append({'op': 'add', 'alias': rng.choice('abc'), 'version': v, 'scale': s,
                                     'h': rng.choice(live), 'md': rng.choice([True, False, False, 1])})
+                        if rng.random() < 0.3:
+                            # the persistent store refuses the write; the same call is retried afterwards
+                            ops[-1]['blocked'] = True
+                            ops.append(dict(ops[-1], blocked=False))
                     elif r < 0.6:
                         ops.append({'op': 'get', 'alias': rng.choice('abcd')})
                     elif r < 0.78:
@@ -131,11 +135,26 @@ def run_impl(sc, wd):
             h = handlers[op['h']]
             dh = cl.CountingDataHandler(op['version'], op['scale'])
             rec['fp_before'] = h.get_fingerprint()
+            rec['file_before'] = file_state(paths[op['h']])
+            blocked = op.get('blocked') and op['h'] not in retired
+            if blocked:
+                # a directory sits where the cache file belongs: opening it for writing raises OSError
+                pth = paths[op['h']]
+                if os.path.exists(pth):
+                    os.rename(pth, pth + '.kept')
+                os.mkdir(pth)
             try:
                 SourceManager.add(op['alias'], dh, h, make_default=op['md'])
                 o = 'added:rebuilt' if dh.calls > 0 else 'added:kept'
             except ExistingSourceError:
                 o = 'existing'
+            except OSError:
+                o = 'writefailed'
+            finally:
+                if blocked:
+                    os.rmdir(pth)
+                    if os.path.exists(pth + '.kept'):
+                        os.rename(pth + '.kept', pth)
             if dh.calls > 0:
                 builds += 1
             rec.update(calls=dh.calls, version_calls=dh.version_calls,
@@ -197,9 +216,12 @@ def model_line(sc):
     else:
         h0 = '%s 1 %s 1' % (cl.j_line(fp0), cl.j_line(fp0))
     toks = ['E', cl.hexs(engine()), 'H', '2', h0, 'n - -', 'O', str(len(sc['ops']))]
+    retired_m = set()
     for op in sc['ops']:
+        if op['op'] == 'reopen':
+            retired_m.add(op['hsrc'])
         if op['op'] == 'add':
-            toks += ['A', cl.hexs(op['alias']),
+            toks += ['AB' if op.get('blocked') and op['h'] not in retired_m else 'A', cl.hexs(op['alias']),
                      '-' if op['version'] is None else cl.hexs(op['version']),
                      str(op['scale']), str(op['h']), '1' if op['md'] is True else '0']
         elif op['op'] == 'get':
@@ -261,6 +283,14 @@ def oracle(sc, log):
                     return 'op %d: second add of alias %r did not raise ExistingSourceError' % (k, op['alias'])
                 if r['calls'] or r['version_calls'] or r['fp_after'] != r['fp_before']:
                     return 'op %d: add of an existing alias had side effects before raising' % k
+            elif r['obs'] == 'writefailed':
+                # the store refused the write: the call failed as a whole, nothing may remember it
+                if not op.get('blocked'):
+                    return 'op %d: add raised OSError although the cache path is writable' % k
+                if r['fp_after'] != r['fp_before'] or r['file_after'] != r['file_before']:
+                    return ('op %d: add failed (the cache could not be written) but left fingerprint %r '
+                            '(before %r), persisted %r (before %r)' % (
+                                k, r['fp_after'], r['fp_before'], r['file_after'], r['file_before']))
             else:
                 if r['obs'] == 'existing':
                     return 'op %d: fresh alias rejected' % k
